@@ -754,6 +754,15 @@ def small_scope(quick):
             p = [LEVELS[i] for i in pat]
             src = {"freq": [0.5 * i for i in range(n)], "power": p}
             yield {"stream": "small-scope", "op": "chain", "src": src, "steps": [["peaks", [1.0] * n, 1.0, 5.0]]}
+    # calculate_power_spectrum: one exclusion range between every pair of bin positions, block sizes 1..3
+    n = 16 if quick else 24
+    x = [float(((i * i * 3 + i) % 11) - 5) + (0.25 if i % 4 == 1 else 0.0) for i in range(n)]
+    fr = bin_freqs(n, 8.0)
+    for a, b in itertools.combinations(range(0, len(fr), 1 if not quick else 2), 2):
+        for k in (1, 2, 3):
+            for lo, hi in ((-1.0, 100.0), (fr[1], fr[-2])):
+                yield {"stream": "small-scope", "op": "chain", "src": {"x": x, "fs": 8.0},
+                       "steps": [["pipeline", lo, hi, [[fr[a], fr[b]]], k, True]]}
     # spectra of every length 4..Nmax with every window length 1..N+1
     nmax = 12 if quick else 33
     for n in range(4, nmax + 1):
